@@ -982,6 +982,7 @@ func gen(x *hxlib.Ctx) {
 		x.Emit(hxlib.Case{Kind: "canary", Canary: true, Coq: "(CChain 1 0 [] None [1] [] true)"})
 		x.Emit(hxlib.Case{Kind: "canary", Canary: true, Coq: "(CVerifySeq 0 None (Some [1]) [] [Cl 1 [] OReject; Cl 2 [] (OAccept [false])])"})
 		x.Emit(hxlib.Case{Kind: "canary", Canary: true, Coq: "(CFastSync 1 0 [] None (1, []) [1] [] true)"})
+		x.Emit(hxlib.Case{Kind: "canary", Canary: true, Coq: "(CFastSyncH [Pv 0 1 5] 1 0 [] None 2 [2] [1] [] true)"})
 	}
 }
 
@@ -1085,6 +1086,12 @@ func replay(raw json.RawMessage) string {
 		return ""
 	case "chain", "chain-setup":
 		return replayChain(raw)
+	case "fastsync-history":
+		var in histIn
+		if err := json.Unmarshal(raw, &in); err != nil {
+			return "bad replay input: " + err.Error()
+		}
+		return replayHist(in)
 	case "fastsync", "fastsync-setup":
 		var in fsIn
 		if err := json.Unmarshal(raw, &in); err != nil {
@@ -1098,7 +1105,7 @@ func replay(raw json.RawMessage) string {
 func main() {
 	hxlib.Main(hxlib.Spec{
 		ID: "C05",
-		Rule: "validator sets of n=1..10 real secp256k1 keys in random order; for every n lists of k distinct valid precommit signatures for k in {0,1,f-1,f,f+1,f+2,n-1,n}, f=floor(2n/3), alone and with ONE more item added or one item replaced by: a foreign key's signature, a validator's signature over another round/height/block id/part-set hash/count/app data/nil-ness/vote type/timestamp, a bit-flipped r/s/v, an empty/zero/V-less/bad-V signature, a verbatim duplicate, a second signature of a signer (all kinds at k=f and k=f+1, a sample elsewhere); signatures made both by the harness's own encoding and by the implementation's vote constructor; height 0, nil and empty validator lists; one decoded list object verified against several blocks in a row (right/other id/other height/right, every call judged on its own); the same lists through BlockManager.Propose and Import on a fixture chain, and through the consensus engine's fast-sync entry (ReceiveBlockResult -> processBlock) on a syncing node; enoughVote on a grid. non-trivial = non-empty list against a non-empty validator set at height>0; distinct = distinct Coq case term",
+		Rule: "validator sets of n=1..10 real secp256k1 keys in random order; for every n lists of k distinct valid precommit signatures for k in {0,1,f-1,f,f+1,f+2,n-1,n}, f=floor(2n/3), alone and with ONE more item added or one item replaced by: a foreign key's signature, a validator's signature over another round/height/block id/part-set hash/count/app data/nil-ness/vote type/timestamp, a bit-flipped r/s/v, an empty/zero/V-less/bad-V signature, a verbatim duplicate, a second signature of a signer (all kinds at k=f and k=f+1, a sample elsewhere); signatures made both by the harness's own encoding and by the implementation's vote constructor; height 0, nil and empty validator lists; one decoded list object verified against several blocks in a row (right/other id/other height/right, every call judged on its own); the same lists through BlockManager.Propose and Import on a fixture chain, and through the consensus engine's fast-sync entry (ReceiveBlockResult -> processBlock) on a syncing node for n=1..10 (threshold subsets on every n, all bad kinds on n=4), and multi-step histories on every n: precommits of round R for block B / for nil / for another block B2 gossiped first (OnReceive), then B or B2 delivered with an empty, single-signature, complementary or equivocating list of the same round; enoughVote on a grid. non-trivial = non-empty list against a non-empty validator set at height>0; distinct = distinct Coq case term",
 		Gen:  gen, Replay: replay,
 	})
 }
